@@ -511,10 +511,31 @@ def _(w, o):
     return _tx_like(w, o).sighash_legacy(o["idx"], mk_script(o["spk"]), o["flag"])
 
 
+# the caller's own argument lists of the previous taproot digest per receiver: with "reuse" the SAME list objects are
+# edited in place and handed in again (a caller that keeps its amounts / scripts in one list) - a memo that remembers
+# the argument object instead of its contents then answers from the past. Per process, hence per history: the
+# pristine evaluation of one operation starts with nothing held and builds fresh lists.
+_HELD = {}
+
+
 @op("sighash_taproot", reads=("obj",))
 def _(w, o):
     t = _tx_like(w, o)
-    return t.sighash_taproot(o["idx"], arg([mk_script(s) for s in o["spks"]]), arg(list(o["values"])), o["flag"])
+    spks = [mk_script(s) for s in o["spks"]]
+    vals = list(o["values"])
+    prev = _HELD.get(id(t))
+    if o.get("reuse") and prev is not None and prev[2] is t:
+        if o.get("reuse") == "script" and len(prev[0]) == len(spks):
+            # the Script objects themselves are edited in place
+            for old, new in zip(prev[0], spks):
+                old.data = new.data
+        else:
+            prev[0][:] = spks
+        prev[1][:] = vals
+        spks, vals = prev[0], prev[1]
+    else:
+        _HELD[id(t)] = (spks, vals, t)
+    return t.sighash_taproot(o["idx"], arg(spks), arg(vals), o["flag"])
 
 
 @op("psbt_sighash", reads=("obj",))
@@ -573,6 +594,36 @@ def _(w, o):
     d = need(w, o, "obj", Descriptor)
     p = need(w, o, "psbt", PSBT)
     return [d.owns(i) for i in p.inputs] + [d.owns(x) for x in p.outputs]
+
+
+@op("native")
+def _(w, o):
+    """calls of the binding layer whose results C writes into buffers the wrapper builds: a buffer that is a shared
+    object (a literal, a default) shows in LATER, unrelated answers - the calls themselves return the right values"""
+    import hashlib
+    from embit import ec
+    secp = ec.secp256k1
+    secret = bytes([o["key"]]) * 32
+    msg = hashlib.sha256(b"m%d" % o["msg"]).digest()
+    kind = o["fn"]
+    if kind == "recoverable":
+        sig = secp.ecdsa_sign_recoverable(msg, secret)
+        return list(secp.ecdsa_recoverable_signature_serialize_compact(sig))
+    if kind == "ecdsa":
+        sig = secp.ecdsa_sign(msg, secret)
+        return [secp.ecdsa_signature_serialize_der(sig), secp.ecdsa_signature_serialize_compact(sig)]
+    if kind == "pubkey":
+        pub = secp.ec_pubkey_create(secret)
+        return [secp.ec_pubkey_serialize(pub), secp.ec_pubkey_serialize(pub, secp.EC_UNCOMPRESSED)]
+    if kind == "schnorr":
+        return [secp.schnorrsig_sign(msg, secret)]
+    if kind == "xonly":
+        pub = secp.ec_pubkey_create(secret)
+        x, parity = secp.xonly_pubkey_from_pubkey(pub)
+        return [secp.xonly_pubkey_serialize(x), int(parity)]
+    if kind == "tweak":
+        return [secp.ec_privkey_add(secret, msg), secp.ec_pubkey_serialize(secp.ec_pubkey_add(secp.ec_pubkey_create(secret), msg))]
+    raise Bad("unknown native call")
 
 
 # ------------------------------------------------------------------------------------------------ execution
